@@ -14,4 +14,10 @@ namespace c18
   void tetra_b(vf::Tape&, vf::Ctx&, int idx, bool flt, bool big);
   void global_case(vf::Tape&, vf::Ctx&, bool big);
   void cfmap_case(vf::Tape&, vf::Ctx&);
+  // extension round (binary c18_ext): index type std::uint32_t, blocked (BWrappedCSR) global transfers
+  void idx32_quad(vf::Tape&, vf::Ctx&, int idx, bool flt, bool big);
+  void idx32_tria(vf::Tape&, vf::Ctx&, int idx, bool flt, bool big);
+  void idx32_hexa(vf::Tape&, vf::Ctx&, int idx, bool flt, bool big);
+  void idx32_tetra(vf::Tape&, vf::Ctx&, int idx, bool flt, bool big);
+  void blocked_case(vf::Tape&, vf::Ctx&, bool big);
 }
